@@ -537,6 +537,62 @@ def run_extended(unit, ctx):
             "counters": {"extended_class_cases": ev}}
 
 
+# ---- the entry points given an explicit subschema (the `_schema` argument) ---------------------------------
+def explicit_subschemas(d, tier):
+    subs = [{}, True, False, {"type": "string"}, {"enum": []}, {"not": {}} if d >= 4 else {"disallow": "any"}]
+    subs += [S for S in _e1.get_list("singles", d, tier)][::3]
+    return subs
+
+
+def run_explicit(unit, ctx):
+    """One validator whose own schema rejects (or accepts) everything is asked about OTHER schemas through
+    is_valid(x, s) / iter_errors(x, s) / validate(x, s): each answers for s, not for its own schema, and they agree."""
+    d, _, shard, n = unit
+    U = jsonvals.universe_small()
+    roots = [{"not": {}} if d >= 4 else {"disallow": "any"}, {}]
+    subs = explicit_subschemas(d, ctx.tier)
+    ev = nt = 0
+    viol, outcomes = [], {}
+    for i in range(shard, len(subs), n):
+        s = subs[i]
+        if isinstance(s, bool) is False and not _e1.accepted(d, s):
+            continue
+        for ri, root in enumerate(roots):
+            v = _e1.CLS[d](root)
+            own = _e1.CLS[d](s) if not isinstance(s, bool) or d >= 6 else None
+            for x in U:
+                ev += 1
+                if own is not None:
+                    want = call(lambda: [ident(e) for e in own.iter_errors(x)])
+                else:           # boolean subschema handed to a draft 3/4 validator: true accepts, false rejects
+                    want = None
+                got = call(lambda: [ident(e) for e in v.iter_errors(x, s)])
+                p = None
+                if want is not None and got != want:
+                    p = "iter_errors(x, s) differs from a validator built for s"
+                elif got[0] == "ret":
+                    errs = got[1]
+                    if errs:
+                        nt += 1
+                    iv = call(lambda: v.is_valid(x, s))
+                    va = call(lambda: v.validate(x, s))
+                    if iv != ("ret", not errs):
+                        p = "is_valid(x, s)=%.80r but iter_errors(x, s) yields %d error(s)" % (iv, len(errs))
+                    elif errs and va != ("ValidationError", errs[0]):
+                        p = "validate(x, s) did not raise the first error of iter_errors(x, s): %.120r" % (va,)
+                    elif not errs and va != ("ret", None):
+                        p = "validate(x, s) raised/returned %.120r although iter_errors(x, s) is empty" % (va,)
+                outcomes["explicit-subschema"] = outcomes.get("explicit-subschema", 0) + 1
+                if p:
+                    viol.append({"signature": "C04|explicit-subschema|%s|%s" % (p.split("(")[0], "falsy" if not s else "truthy"),
+                                 "size": len(str(s)) + len(str(x)),
+                                 "case": {"draft": d, "schema": s, "instance": x,
+                                          "config": {"kind": "explicit", "root_index": ri}},
+                                 "detail": {"problem": p}})
+    return {"evaluations": ev, "nontrivial": nt, "violations": viol, "samples": [], "outcomes": outcomes,
+            "counters": {"explicit_subschema_cases": ev}}
+
+
 def plan(ctx):
     sizes = {}
     units = []
@@ -556,6 +612,7 @@ def plan(ctx):
     for d in _e1.DRAFTS:
         sizes["ref_sibling_schemas_d%d" % d] = len(ref_sibling_schemas(d, ctx.tier))
         units += [(d, "refsib", i, 6) for i in range(6)]
+        units += [(d, "explicit", i, 2) for i in range(2)]
         for ci in range(len(extended_classes(d))):
             units += [(d, "extended", ci, i, 2) for i in range(2)]
     for d in _e1.DRAFTS:
@@ -574,7 +631,9 @@ def plan(ctx):
                  "C11's table (4-12 positions) that the draft's check_schema rejects, with a trip-wire instance, "
                  "also after the same schema object was accepted by another draft's class or was accepted by this "
                  "class and then edited in place; "
-                 "all relations of the property are evaluated on each; NEXT TO $ref: every single keyword written next "
+                 "all relations of the property are evaluated on each; EXPLICIT SUBSCHEMA: is_valid / iter_errors / "
+                 "validate given another schema (`{}`, true, false, a third of the singles) by a validator whose own "
+                 "schema accepts or rejects everything; NEXT TO $ref: every single keyword written next "
                  "to a $ref (before and after it) x 3 targets x 29 instances; EXTENDED CLASSES: the relations for 4 "
                  "classes whose `type` / `enum` function or type checker was replaced, over singles and the groups "
                  "with type / enum; SESSIONS: on ONE validator object every sequence "
@@ -608,6 +667,8 @@ def run_unit(unit, ctx):
         return run_sessions(unit, ctx)
     if kind == "refsib":
         return run_refsib(unit, ctx)
+    if kind == "explicit":
+        return run_explicit(unit, ctx)
     if kind == "extended":
         return run_extended(unit, ctx)
     if kind == "invalid":
@@ -675,6 +736,18 @@ def run_unit(unit, ctx):
 
 def replay(case, ctx):
     d, S, cfg = case["draft"], case["schema"], case["config"]
+    if cfg.get("kind") == "explicit":
+        root = [{"not": {}} if d >= 4 else {"disallow": "any"}, {}][cfg["root_index"]]
+        v = _e1.CLS[d](root)
+        x = case["instance"]
+        got = call(lambda: [ident(e) for e in v.iter_errors(x, S)])
+        iv = call(lambda: v.is_valid(x, S))
+        va = call(lambda: v.validate(x, S))
+        bad = got[0] == "ret" and (iv != ("ret", not got[1]) or (got[1] and va != ("ValidationError", got[1][0]))
+                                   or (not got[1] and va != ("ret", None)))
+        if not bad and (not isinstance(S, bool) or d >= 6):
+            bad = got != call(lambda: [ident(e) for e in _e1.CLS[d](S).iter_errors(x)])
+        return {"reproduced": bool(bad), "iter_errors": got, "is_valid": iv, "validate": va}
     if cfg.get("kind") == "extended":
         p, k = check_with_class(extended_classes(d)[cfg["class_index"]][1], S, case["instance"])
         return {"reproduced": bool(p), "problem": p}
